@@ -130,7 +130,8 @@ def install(ctx, repo, probes):
     for fmt in (1, 3, 4):
         ctx.target("shift/fmt%d/single" % fmt, "shift/fmt%d/series" % fmt)
     ctx.target("sibling/repetitions", "sibling/start", "sibling/end",
-               "sibling/interval", "twin/zone", "twin/representation",
+               "sibling/interval", "sibling/interval-regrouped",
+               "twin/zone", "twin/representation",
                "twin/units", "roundtrip/fmt1", "roundtrip/fmt3",
                "roundtrip/fmt4", "roundtrip/cross-mode")
 
@@ -142,7 +143,7 @@ def _insts(mode, pts):
 def run_case(ctx, repo, case):
     desc = case["desc"]
     mode = desc["mode"]
-    repo.set_mode(mode)
+    repo.set_mode(mode, case)
     try:
         try:
             rec = recgen.build(repo, desc)
@@ -305,6 +306,22 @@ def sibling_variants(repo, rec):
         kw = dict(base)
         kw["end_point"] = base["end_point"] + one
         out.append(("interval", kw))
+    d = base.get("duration")
+    if fmt in (3, 4) and not single and d is not None and \
+            (d._years or d._months) and d._weeks is None:
+        # the same rough length split differently between nominal and
+        # exact units: a different interval (a month is not 30 days, a year
+        # is not 365 days)
+        y, m, dd = d._years, d._months, d._days
+        if m > 0:
+            m, dd = m - 1, dd + 30
+        else:
+            y, dd = y - 1, dd + 365
+        kw = dict(base)
+        kw["duration"] = repo.Duration(
+            years=y, months=m, days=dd, hours=d._hours, minutes=d._minutes,
+            seconds=d._seconds)
+        out.append(("interval-regrouped", kw))
     return out
 
 
